@@ -686,3 +686,70 @@ pub fn kernel_case(e: &E, pos: usize, sigil: Option<&'static str>) -> Case {
     };
     Case { prog: Prog { sigil, params, helpers, body }, args, tags: vec![format!("kernel/pos{}", pos)] }
 }
+
+// ---------------------------------------------------------------------------
+// NESTED: embedded (mod ...) forms applied with `a`. The nested module is a closed program with its
+// own helpers; its helper names may coincide with the outer program's.
+
+pub fn nested_cases(sigil: Option<&'static str>) -> Vec<Case> {
+    let mut out = vec![];
+    let params = Pat::list(vec![Pat::n("A"), Pat::n("B")]);
+    let args = vec![T::list(&[T::int(5), T::int(7)]), T::list(&[T::list(&[T::int(1), T::int(2)]), T::int(-3)])];
+    // outer helper kinds
+    let outer_kinds = ["none", "defun", "inline", "defconstant"];
+    // inner helper kinds; "same-name" gives the inner function the outer function's name with a different body
+    let inner_kinds = ["none", "defun", "inline", "same-name-defun", "defconstant", "two-defuns"];
+    let positions = ["main-body", "argument-of-outer-call", "inside-outer-defun", "let-binding"];
+    for ok in outer_kinds {
+        for ik in inner_kinds {
+            for pos in positions {
+                if (pos == "argument-of-outer-call" || pos == "inside-outer-defun") && ok != "defun" && ok != "inline" {
+                    continue;
+                }
+                if ik == "same-name-defun" && ok != "defun" && ok != "inline" {
+                    continue;
+                }
+                let mut helpers = vec![];
+                match ok {
+                    "defun" | "inline" => helpers.push(Helper::Fun { name: "DBL".into(), inline: ok == "inline", params: Pat::list(vec![Pat::n("P")]), body: E::List(vec![E::int(2), E::v("P"), E::v("P")]) }),
+                    "defconstant" => helpers.push(Helper::Constant { name: "K".into(), datum: T::int(99) }),
+                    _ => {}
+                }
+                let outer_val = |e: E| -> E {
+                    match ok {
+                        "defun" | "inline" => E::call("DBL", vec![e]),
+                        "defconstant" => E::List(vec![E::v("K"), e]),
+                        _ => e,
+                    }
+                };
+                // the nested module: (mod (Y Z) <helpers> body)
+                let (ihelpers, ibody): (Vec<Helper>, E) = match ik {
+                    "defun" | "inline" => (vec![Helper::Fun { name: "INC".into(), inline: ik == "inline", params: Pat::list(vec![Pat::n("Q")]), body: E::List(vec![E::int(1), E::v("Q")]) }], E::List(vec![E::call("INC", vec![E::v("Y")]), E::v("Z")])),
+                    "same-name-defun" => (vec![Helper::Fun { name: "DBL".into(), inline: false, params: Pat::list(vec![Pat::n("Q")]), body: E::List(vec![E::int(3), E::v("Q")]) }], E::List(vec![E::call("DBL", vec![E::v("Y")]), E::v("Z")])),
+                    "defconstant" => (vec![Helper::Constant { name: "IK".into(), datum: T::int(55) }], E::List(vec![E::v("IK"), E::v("Y"), E::v("Z")])),
+                    "two-defuns" => (
+                        vec![
+                            Helper::Fun { name: "INC".into(), inline: false, params: Pat::list(vec![Pat::n("Q")]), body: E::List(vec![E::int(1), E::v("Q")]) },
+                            Helper::Fun { name: "WRAP".into(), inline: false, params: Pat::list(vec![Pat::n("Q"), Pat::n("R")]), body: E::List(vec![E::call("INC", vec![E::v("Q")]), E::v("R")]) },
+                        ],
+                        E::call("WRAP", vec![E::v("Y"), E::v("Z")]),
+                    ),
+                    _ => (vec![], E::List(vec![E::int(4), E::v("Z"), E::v("Y")])),
+                };
+                let inner = Prog { sigil: None, params: Pat::list(vec![Pat::n("Y"), Pat::n("Z")]), helpers: ihelpers, body: ibody };
+                let apply = |a: E, b: E| E::ApplyMod(Box::new(inner.clone()), Box::new(E::List(vec![a, b])));
+                let body = match pos {
+                    "main-body" => E::List(vec![apply(outer_val(E::v("A")), E::v("B")), E::v("A")]),
+                    "argument-of-outer-call" => E::List(vec![E::call("DBL", vec![apply(E::v("A"), E::v("B"))]), E::v("B")]),
+                    "inside-outer-defun" => {
+                        helpers.push(Helper::Fun { name: "OUTER".into(), inline: false, params: Pat::list(vec![Pat::n("U"), Pat::n("V")]), body: E::List(vec![apply(E::call("DBL", vec![E::v("U")]), E::v("V")), E::v("U")]) });
+                        E::call("OUTER", vec![E::v("B"), E::v("A")])
+                    }
+                    _ => E::Let(LetKind::Let, vec![("W".into(), apply(outer_val(E::v("B")), E::v("A")))], Box::new(E::List(vec![E::v("W"), E::v("A")]))),
+                };
+                out.push(Case { prog: Prog { sigil, params: params.clone(), helpers, body }, args: args.clone(), tags: vec![format!("nested/{}", pos), format!("outer:{}-inner:{}", ok, ik)] });
+            }
+        }
+    }
+    out
+}
